@@ -13,6 +13,7 @@ mod rgen;
 mod laws;
 mod errs;
 mod session;
+mod jsonrt;
 
 use serde_json::Value;
 use std::fs::{File, OpenOptions};
@@ -32,6 +33,7 @@ fn runner(engine: &str) -> Runner {
         "lang" => lang::run_case,
         "laws" => laws::run_case,
         "errs" => errs::run_case,
+        "json" => jsonrt::run_case,
         _ => die(&format!("unknown engine {}", engine)),
     }
 }
@@ -82,6 +84,7 @@ fn main() {
                 "eval" => rgen::gen_eval(seed, n, maxlen),
                 "calls" => rgen::gen_calls(seed, n),
                 "strings" => rgen::gen_strings(seed, n, maxlen),
+                "json" => rgen::gen_json(seed, n),
                 _ => die("unknown generator"),
             };
             for r in recs {
